@@ -5,7 +5,8 @@ import json, os
 import vlib
 from vlib import CheckError
 
-CLAUSE = {1: "envelope", 2: "spaced-refused", 3: "gc-visible", 4: "not-independent", 5: "concurrent"}
+CLAUSE = {1: "envelope", 2: "spaced-refused", 3: "gc-visible", 4: "not-independent", 5: "concurrent",
+          6: "idle-entry-not-forgotten", 11: "envelope", 12: "spaced-refused", 14: "not-independent"}
 CONC_SIG = "concurrent-new-address-insert-race"
 
 
@@ -14,7 +15,9 @@ class Prop:
     vo_check = ["theories/Ratelimit/Check.vo"]
     vo_props = ["theories/Props/C19.vo"]
     k_names = ["decisions(ratelimiter.Allow/cleanup under VerifSetClock == Ratelimit.Model.step, with passes, without passes, address alone)",
-               "concurrent(k callers of Allow for one new address held at the clock call; observed admissions judged by Spec.envelope_chk)"]
+               "concurrent(k callers of Allow for one new address held at the clock call; observed admissions judged by Spec.envelope_chk)",
+               "device(real device under load, cookie exchange done, one address flooding while another sends 60 ms apart, v4 and v6; "
+               "processed/refused per message judged by Spec envelope/spaced/independence checkers)"]
     rule = ("arrival histories from one PRNG under a virtual clock: 2-8 addresses (v4, v6, v4-mapped v6, extremes) interleaved, "
             "gaps around packetCost (50 ms), maxTokens and the 1 s collection threshold, bursts at a frozen clock, long idles, "
             "collection passes as explicit ops, start times at the int64 extremes, gaps beyond 2^62 ns (int64 wrap of the token "
@@ -34,6 +37,8 @@ class Prop:
         self.dir = os.path.join(vlib.OUT, "C19")
         self.conc_file = None
         self.conc_index = None
+        self.dev_file = None
+        self.dev_index = None
 
     def _load(self, d):
         meta = json.load(open(os.path.join(d, "cases.json")))
@@ -58,13 +63,24 @@ class Prop:
         self.conc_file = os.path.join(self.dir, meta["conc_file"]) if meta.get("conc_file") else None
         if self.conc_file:
             files = files + [self.conc_file]
+        self.dev_index = meta.get("dev_index")
+        self.dev_file = os.path.join(self.dir, meta["dev_file"]) if meta.get("dev_file") else None
+        if self.dev_file:
+            files = files + [self.dev_file]
+        self.extra_coverage = {}
         c = meta["cases"][self.conc_index]["conc"] if self.conc_index is not None else None
         if c:
-            self.extra_coverage = {"concurrent_scenario": {k: c[k] for k in c if k != "decisions"}}
+            self.extra_coverage["concurrent_scenario"] = {k: c[k] for k in c if k != "decisions"}
+        if self.dev_index is not None:
+            ds = [x["dev"] for x in meta["cases"][self.dev_index:] if x.get("dev")]
+            self.extra_coverage["device_level"] = {"traces": [d["summary"] for d in ds],
+                                                   "valid_traces": sum(1 for d in ds if d["valid"]),
+                                                   "discarded_attempts": sum(d["discarded_attempts"] for d in ds),
+                                                   "discard_reasons": [r for d in ds for r in (d.get("discard_reasons") or [])]}
         return files, meta["cases"]
 
     @staticmethod
-    def _fails(shards, files, outputs, conc_file, conc_index):
+    def _fails(shards, files, outputs, conc_file, conc_index, dev_file=None, dev_index=None):
         res = []
         for s, f in zip(shards, files):
             for (idx, kind, clause, pos) in vlib.parse_n_tuples(vlib.coq_value(outputs[f], "bad")):
@@ -73,15 +89,18 @@ class Prop:
             for (idx, kind, clause, pos) in vlib.parse_n_tuples(vlib.coq_value(outputs[conc_file], "cbad")):
                 res.append({"case": conc_index, "kind": kind, "clause": clause, "pos": pos,
                             "admitted": vlib.parse_n_list(vlib.coq_value(outputs[conc_file], "cadm"))[0]})
+        if dev_file and dev_file in outputs:
+            for (idx, kind, clause, pos) in vlib.parse_n_tuples(vlib.coq_value(outputs[dev_file], "dbad")):
+                res.append({"case": dev_index + idx, "kind": kind, "clause": clause, "pos": pos})
         return res
 
     def failures(self, outputs, files, cases):
-        return self._fails(self.shards, files, outputs, self.conc_file, self.conc_index)
+        return self._fails(self.shards, files, outputs, self.conc_file, self.conc_index, self.dev_file, self.dev_index)
 
     def stats(self, outputs):
         tot = [0] * 9
         for f, o in outputs.items():
-            if f == self.conc_file:
+            if f == self.conc_file or f == self.dev_file:
                 continue
             v = vlib.parse_n_list(vlib.coq_value(o, "st"))
             tot = [a + b for a, b in zip(tot, v)]
@@ -96,22 +115,29 @@ class Prop:
             if f.startswith("cases_C19_"):
                 os.remove(os.path.join(d, f))
         inp = os.path.join(d, "in.json")
-        json.dump([({"conc": {"k": c["conc"].get("k", 16), "followups": c["conc"].get("followups", 8)}, "gen": "concurrent-new-address"}
-                    if c.get("conc") else {"addrs": c["addrs"], "ops": c["ops"], "pa": c.get("pa", 0)}) for c in cases],
-                  open(inp, "w"))
+        def inp_of(c):
+            if c.get("conc"):
+                return {"conc": {"k": c["conc"].get("k", 16), "followups": c["conc"].get("followups", 8)}, "gen": "concurrent-new-address"}
+            if c.get("dev"):
+                return {"dev": {"family": c["dev"].get("family", "v4")}, "gen": "device-level"}
+            return {"addrs": c["addrs"], "ops": c["ops"], "pa": c.get("pa", 0)}
+        json.dump([inp_of(c) for c in cases], open(inp, "w"))
         meta, files = self._run_go(["-replay", inp, "-out", d], d)
         cf = os.path.join(d, meta["conc_file"]) if meta.get("conc_file") else None
-        outs = vlib.run_case_files(files + ([cf] if cf else []))
+        df = os.path.join(d, meta["dev_file"]) if meta.get("dev_file") else None
+        outs = vlib.run_case_files(files + ([cf] if cf else []) + ([df] if df else []))
         self.last_rerun = meta["cases"]
-        res = self._fails(meta["shards"], files, outs, cf, meta.get("conc_index"))
-        # replayed sequential cases keep their order; a concurrent case is moved to the end by the harness
-        order = [i for i, c in enumerate(cases) if not c.get("conc")] + [i for i, c in enumerate(cases) if c.get("conc")]
+        res = self._fails(meta["shards"], files, outs, cf, meta.get("conc_index"), df, meta.get("dev_index"))
+        # replayed sequential cases keep their order; the harness puts a concurrent case after them and device cases last
+        seq = lambda c: not c.get("conc") and not c.get("dev")
+        order = ([i for i, c in enumerate(cases) if seq(c)] + [i for i, c in enumerate(cases) if c.get("conc")] +
+                 [i for i, c in enumerate(cases) if c.get("dev")])
         for f in res:
             f["case"] = order[f["case"]]
         return res
 
     def shrink_candidates(self, case):
-        if case.get("conc"):
+        if case.get("conc") or case.get("dev"):
             return
         ops = case["ops"]
         n = len(ops)
@@ -126,11 +152,15 @@ class Prop:
     def signature(self, case, f):
         if case.get("conc"):
             return CONC_SIG
+        if case.get("dev"):
+            return "device-" + CLAUSE.get(f.get("clause"), "clause%s" % f.get("clause"))
         return "sequential-" + CLAUSE.get(f.get("clause"), "clause%s" % f.get("clause"))
 
     def nontrivial(self, c):
         if c.get("conc"):
             return True
+        if c.get("dev"):
+            return bool(c["dev"].get("valid"))
         adm, ref = set(), set()
         gc = False
         i = 0
@@ -143,6 +173,8 @@ class Prop:
         return gc and len(adm) >= 2 and len(ref) >= 1
 
     def sample(self, c):
+        if c.get("dev"):
+            return {"gen": c.get("gen"), "device": c["dev"]["summary"]}
         if c.get("conc"):
             return {"gen": c.get("gen"), "conc": {k: v for k, v in c["conc"].items() if k != "decisions"}}
         return {"gen": c.get("gen"), "addrs": c["addrs"], "ops": [[o["a"], o["t"]] for o in c["ops"][:12]],
@@ -159,7 +191,7 @@ def replay(path):
     case = obj.get("input") or obj
     fs = p.run_cases([case])
     obs = p.last_rerun[0]
-    print(json.dumps({"failures": fs, "observed": obs.get("conc") or obs.get("obs")}))
+    print(json.dumps({"failures": fs, "observed": obs.get("conc") or (obs.get("dev") or {}).get("summary") or obs.get("obs")}))
     if any(f["kind"] == 2 for f in fs):
         print("VIOLATION property=C19 replay=%s" % path)
         return 1
